@@ -315,6 +315,8 @@ func (r *Repo) storeCommit(treeHash repository.Hash, signed bool, parents []repo
 
 // AddCommit inserts a commit directly (harness construction of arbitrary histories).
 func (r *Repo) AddCommit(tree repository.Hash, parents ...repository.Hash) repository.Hash {
+	r.mu.Lock()
+	defer r.mu.Unlock()
 	h := r.newHash('c')
 	r.Commits[h] = &CommitRec{Parents: append([]repository.Hash(nil), parents...), Tree: tree}
 	return h
@@ -322,12 +324,16 @@ func (r *Repo) AddCommit(tree repository.Hash, parents ...repository.Hash) repos
 
 // AddTree / AddBlob insert objects without logging (harness construction).
 func (r *Repo) AddTree(entries []repository.TreeEntry) repository.Hash {
+	r.mu.Lock()
+	defer r.mu.Unlock()
 	h := r.newHash('e')
 	r.Trees[h] = entries
 	return h
 }
 
 func (r *Repo) AddBlob(data []byte) repository.Hash {
+	r.mu.Lock()
+	defer r.mu.Unlock()
 	h := r.newHash('b')
 	r.Blobs[h] = data
 	return h
